@@ -132,7 +132,7 @@ def build_case(world, seq, fill, parse_names):
                 want_rc = 'r parse_buf %d' % (0 if r else 1)
             lines.append('get A %s int 0' % enc('i'))
             want_val = 'r get %d' % (world.marker(r) if r else 0)
-            exp.append((via, nm, None if unspec else (want_rc, want_val)))
+            exp.append((via, nm, 'SAME-AS-PARSE' if unspec else (want_rc, want_val)))
     return Case(lines), exp, dirs
 
 
@@ -145,6 +145,7 @@ def judge(st, case, res, exp, root, label):
         return
     lines = [l for l in res.lines if l.startswith('r tilde') or l.startswith('r searchpath') or l.startswith('r parse') or l.startswith('r get')]
     k = 0
+    last_parse = None
     for (kind, nm, want) in exp:
         st.transitions += 1
         if kind in ('tilde', 'searchpath'):
@@ -160,8 +161,18 @@ def judge(st, case, res, exp, root, label):
             got = tuple(lines[k:k + 2])
             k += 2
             st.outcome(' '.join(got))
-            if want is None:
-                st.unspec += 1
+            if want == 'SAME-AS-PARSE':
+                # what a tilde name means while a search path is set is not specified - but "top-level parse and include use
+                # the same resolution": found / not found and the file reached must agree
+                norm = (len(got) == 2 and got[0].endswith(' 0'), got[1] if len(got) == 2 else None)
+                if kind == 'parse':
+                    last_parse = (nm, norm, got)
+                    st.unspec += 1
+                elif last_parse is not None and last_parse[0] == nm:
+                    st.validated += 1
+                    if norm != last_parse[1]:
+                        st.violation('include-resolves-differently-from-parse:%s' % label, script, 'as cfg_parse: %s  (name %r)' % (' '.join(last_parse[2]), nm), ' '.join(got))
+                        return
                 continue
             st.validated += 1
             if got != want:
